@@ -31,12 +31,12 @@ struct RawOps {
     bool (*search_at_type)(PDU&, int type_sel);
 };
 static Bytes g_data = pattern(40, 0x51);
-template <class Q, class Opt, class Type> RawOps raw_ops(const std::vector<int>& types) {
+template <class Q, class Opt, class CtorT, class Type> RawOps raw_ops(const std::vector<int>& types) {
     static std::vector<int> ty; ty = types;
     RawOps r;
     r.applies = [](PDU& p) { return dynamic_cast<Q*>(&p) != 0; };
     r.count = [](PDU& p) { return (size_t)static_cast<Q&>(p).options().size(); };
-    r.add = [](PDU& p, int ts, int len) { static_cast<Q&>(p).add_option(Opt((Type)ty[ts % ty.size()], len, g_data.data())); };
+    r.add = [](PDU& p, int ts, int len) { static_cast<Q&>(p).add_option(Opt((CtorT)ty[ts % ty.size()], len, g_data.data())); };
     r.remove_at = [](PDU& p, size_t i) { Q& q = static_cast<Q&>(p); if (i >= q.options().size()) return false; auto it = q.options().begin(); std::advance(it, i); return q.remove_option((Type)it->option()); };
     r.search_at_type = [](PDU& p, int ts) { return static_cast<Q&>(p).search_option((Type)ty[ts % ty.size()]) != 0; };
     return r;
@@ -163,15 +163,15 @@ static std::vector<ClassCfg> classes() {
     std::vector<ClassCfg> v;
     RawOps none = RawOps();
 #define CLS(Q) v.push_back(ClassCfg{#Q, &make_q<Q>, &parse_q<Q>, none, false});
-#define CLSR(Q, Opt, Type, ...) v.push_back(ClassCfg{#Q, &make_q<Q>, &parse_q<Q>, raw_ops<Q, Opt, Type>(std::vector<int>(__VA_ARGS__)), true});
-    CLSR(TCP, TCP::option, TCP::OptionTypes, {2, 34, 254})
-    CLSR(IP, IP::option, uint8_t, {0x88, 0x07, 0x94})
-    CLSR(ICMPv6, ICMPv6::option, uint8_t, {1, 5, 200})
-    CLSR(DHCP, DHCP::option, DHCP::OptionTypes, {53, 12, 43})
-    CLSR(DHCPv6, DHCPv6::option, uint16_t, {1, 8, 17})
-    CLSR(Dot11Beacon, Dot11::option, uint8_t, {0, 3, 221})
-    CLSR(Dot11ProbeResponse, Dot11::option, uint8_t, {0, 3, 221})
-    CLSR(Dot11AssocRequest, Dot11::option, uint8_t, {0, 1, 221})
+#define CLSR(Q, Opt, CtorT, Type, ...) v.push_back(ClassCfg{#Q, &make_q<Q>, &parse_q<Q>, raw_ops<Q, Opt, CtorT, Type>(std::vector<int>(__VA_ARGS__)), true});
+    CLSR(TCP, TCP::option, TCP::OptionTypes, TCP::OptionTypes, {2, 34, 254})
+    CLSR(IP, IP::option, IP::option_identifier, IP::option_identifier, {0x88, 0x07, 0x94})
+    CLSR(ICMPv6, ICMPv6::option, uint8_t, ICMPv6::OptionTypes, {1, 5, 200})
+    CLSR(DHCP, DHCP::option, uint8_t, DHCP::OptionTypes, {53, 12, 43})
+    CLSR(DHCPv6, DHCPv6::option, uint16_t, DHCPv6::OptionTypes, {1, 8, 17})
+    CLSR(Dot11Beacon, Dot11::option, uint8_t, Dot11::OptionTypes, {0, 3, 221})
+    CLSR(Dot11ProbeResponse, Dot11::option, uint8_t, Dot11::OptionTypes, {0, 3, 221})
+    CLSR(Dot11AssocRequest, Dot11::option, uint8_t, Dot11::OptionTypes, {0, 1, 221})
     CLS(EthernetII) CLS(Dot3) CLS(LLC) CLS(SNAP) CLS(Dot1Q) CLS(SLL) CLS(Loopback) CLS(PPPoE) CLS(MPLS) CLS(ARP) CLS(IPv6) CLS(IPSecAH) CLS(IPSecESP)
     CLS(UDP) CLS(ICMP) CLS(DNS) CLS(BootP) CLS(RTP) CLS(VXLAN) CLS(STP) CLS(RadioTap) CLS(RSNEAPOL) CLS(RC4EAPOL)
     CLS(Dot11Data) CLS(Dot11QoSData) CLS(Dot11Authentication) CLS(Dot11Deauthentication) CLS(Dot11Disassoc) CLS(Dot11ProbeRequest) CLS(Dot11AssocResponse)
